@@ -46,6 +46,9 @@ XLITS = [('3.0b', '3'), ('1.5b', '3/2'), ('0.75B', '3/4'), ('.5b', '1/2'), ('2.b
 # a literal as operand of arithmetic keeps its fraction of a byte: (expression, exact value)
 XEXPRS = [('0.3k * 10', '3072'), ('0.1k + 2.9k', '3072'), ('0.3 * 1k', '1536/5'), ('1.5b * 2', '3'), ('3.5k - 0.5k', '3072'), ('0.3k * 5', '1536'),
           ('1.5k / 1', '1536'), ('0.75b + 0.25b', '1')]
+# two literals in one condition whose spellings differ only in the decimal point, the letter case or a blank
+XPAIRS = [('2.5k', '25k'), ('25k', '2.5k'), ('1.5k', '15k'), ('1.0k', '10k'), ('0.3k', '3k'), ('1.5kb', '15kb'), ('3b', '3k'), ('3k', '3kb'), ('3kib', '3kb'), ('.3k', '3k'), ('0.30k', '0.3k'),
+          ('1.536k', '1536'), ('1536', '1.5k'), ('1K', '1k'), ('1 k', '1kb')]
 XSIZES = [0, 1, 2, 3, 4, 299, 300, 301, 306, 307, 308, 1023, 1024, 1025, 1535, 1536, 1537, 3070, 3071, 3072, 3073, 15359, 15360, 15361]
 
 
@@ -129,6 +132,8 @@ def single(case):
     k = case['kind']
     if k == 'parse':
         return {'kind': 'parse', 'lits': [[case['lit'], case['bytes']]], 'op': case['op'], 'tier': case.get('tier', 'quick')}
+    if k == 'parse-x' and case.get('pair'):
+        return {'kind': 'parse-x', 'lits': [], 'exprs': []}
     if k == 'parse-x':
         return {'kind': 'parse-x', 'lits': [[case['lit'], case['value']]] if not case.get('expr') else [], 'exprs': [[case['lit'], case['value']]] if case.get('expr') else [],
                 'op': case['op'], 'mirror': case['mirror']}
@@ -227,6 +232,24 @@ def eval_group(env, group, tier):
         core.materialise(root, {'s%d' % v: F(v, sparse=True) for v in XSIZES})
         mirror_of = {'=': '=', '!=': '!=', '<': '>', '>': '<', '<=': '>=', '>=': '<='}
         try:
+            for la, lb in (XPAIRS if 'op' not in group else []):
+                va, vb = xvalue(la.replace(' ', ''), None), xvalue(lb.replace(' ', ''), None)
+                qa, qb = ("'%s'" % la if ' ' in la else la), ("'%s'" % lb if ' ' in lb else lb)
+                for cond, f in (('size >= %s and size <= %s' % (qa, qb), lambda v: va <= v <= vb), ('size between %s and %s' % (qa, qb), lambda v: va <= v <= vb),
+                                ('size < %s or size > %s' % (qa, qb), lambda v: v < va or v > vb), ('size = %s or size = %s' % (qa, qb), lambda v: v == va or v == vb),
+                                ('size != %s and size <= %s' % (qb, qa), lambda v: v != vb and v <= va)):
+                    q = 'name from . where %s into list' % cond
+                    o = env.run([q], cwd=root)
+                    exp = sorted('s%d' % v for v in XSIZES if f(v))
+                    case = {'kind': 'parse-x', 'pair': [la, lb], 'query': q}
+                    r = {'case': case, 'nt': True, 'layer': 'literal-pairs', 'trans': len(XSIZES)}
+                    if o.timeout or o.rc != 0 or o.err:
+                        r.update(status='viol', cls='parse-x-status', detail=dict(o.brief(), query=q), sig=('err',))
+                    elif sorted(o.rows()) != exp:
+                        r.update(status='viol', cls='literal-pair-rows', sig=('pair', la, lb), detail={'query': q, 'got': sorted(o.rows())[:8], 'expected': exp[:8]})
+                    else:
+                        r.update(status='ok', sig=(la, lb, cond[:12]))
+                    outs.append(r)
             for is_expr, items in ((False, group['lits']), (True, group['exprs'])):
                 for lit, val in items:
                     x = xvalue(lit, val)
